@@ -35,6 +35,7 @@ TNext == \/ Ev("GetConn") /\ GetConn(J.u, J.f) /\ PostOK(J)
          \/ Ev("DUfrag") /\ DUfrag /\ PostOK(J)
          \/ Ev("DEnq") /\ DEnq /\ PostOK(J)
          \/ Ev("DPut") /\ DPut /\ PostOK(J)
+         \/ Ev("URead") /\ URead(J.c, J.form) /\ PostOK(J)
          \/ Ev("RStart") /\ RStart(J.u) /\ PostOK(J)
          \/ Ev("RUnlist") /\ RUnlist /\ PostOK(J)
          \/ Ev("RUnmap") /\ RUnmap /\ PostOK(J)
